@@ -1,0 +1,71 @@
+//go:build verif
+
+// Contracts for the deductive verifier under /verif (foxvc): transactions and
+// publication (properties C04, C05, C06). Comments only.
+
+package fox
+
+//@ package fox
+
+//@ func (*Router).getRoot props C04,C05
+//@   requires fox != nil
+//@   ensures result == published[&fox.tree]
+
+//@ func (*Router).txnWith props C04,C05,C06
+//@   requires fox != nil && published[&fox.tree] != nil
+//@   requires write ==> !held[&fox.mu]
+//@   modifies held[&fox.mu], lockOps[&fox.mu]
+//@   ensures result != nil && fresh(result) && result.fox == fox && result.write == write && result.rootTxn != nil && fresh(result.rootTxn)
+//@   ensures locked: write ==> held[&fox.mu]
+//@   ensures nolock: !write ==> held[&fox.mu] == old(held[&fox.mu]) && lockOps[&fox.mu] == old(lockOps[&fox.mu])
+//@   ensures from-published: published[&fox.tree] != nil ==> result.rootTxn.tree == published[&fox.tree] && result.rootTxn.root == published[&fox.tree].root && result.rootTxn.size == published[&fox.tree].size
+//@   assert-at call (*Router).getRoot#1 : lock-then-load: write ==> held[&fox.mu]
+
+//@ func (*iTree).txn props C04
+//@   requires t != nil
+//@   ensures result != nil && fresh(result) && result.tree == t && result.root == t.root && result.size == t.size && result.maxParams == t.maxParams && result.depth == t.depth && result.cache == cache && result.writable == nil
+
+//@ func (*tXn).commit props C04,C03
+//@   requires t != nil && t.tree != nil
+//@   modifies t.writable
+//@   ensures result != nil && fresh(result) && result.root == t.root && result.size == t.size && result.maxParams == t.maxParams && result.depth == t.depth && result.fox == t.tree.fox
+//@   ensures reset: t.writable == nil
+
+//@ func (*tXn).snapshot props C03
+//@   requires t != nil
+//@   modifies t.writable
+//@   ensures result == t.root && t.writable == nil
+
+//@ func (*tXn).clone props C03,C04
+//@   requires t != nil
+//@   modifies t.writable
+//@   ensures t.writable == nil
+//@   ensures result != nil && fresh(result) && result.tree == t.tree && result.root == t.root && result.size == t.size && result.maxParams == t.maxParams && result.depth == t.depth && result.writable == nil
+
+//@ -- typestate of a transaction: OpenRW (write && rootTxn != nil) holds the writer lock
+//@ pred txnOK(txn *Txn) = txn != nil && txn.fox != nil && (txn.write && txn.rootTxn != nil ==> held[&txn.fox.mu] && txn.rootTxn.tree != nil)
+
+//@ func (*Txn).Commit props C04,C05,C06
+//@   requires txnOK(txn)
+//@   modifies txn.rootTxn, txn.rootTxn.writable, held[&txn.fox.mu], lockOps[&txn.fox.mu], published[&txn.fox.tree], pubCount[&txn.fox.tree]
+//@   ensures settled: txn.write ==> txn.rootTxn == nil
+//@   ensures published: old(txn.write && txn.rootTxn != nil) ==> pubCount[&txn.fox.tree] == old(pubCount[&txn.fox.tree]) + 1 && fresh(published[&txn.fox.tree]) && published[&txn.fox.tree].root == old(txn.rootTxn.root) && published[&txn.fox.tree].size == old(txn.rootTxn.size) && published[&txn.fox.tree].maxParams == old(txn.rootTxn.maxParams) && published[&txn.fox.tree].depth == old(txn.rootTxn.depth)
+//@   ensures unlocked: old(txn.write && txn.rootTxn != nil) ==> !held[&txn.fox.mu]
+//@   ensures noop: !old(txn.write && txn.rootTxn != nil) ==> pubCount[&txn.fox.tree] == old(pubCount[&txn.fox.tree]) && published[&txn.fox.tree] == old(published[&txn.fox.tree]) && held[&txn.fox.mu] == old(held[&txn.fox.mu]) && lockOps[&txn.fox.mu] == old(lockOps[&txn.fox.mu]) && txn.rootTxn == old(txn.rootTxn)
+//@   assert-at call (*Pointer[github.com/tigerwill90/fox.iTree]).Store[github.com/tigerwill90/fox.iTree]#1 : store-under-lock: held[&txn.fox.mu]
+
+//@ func (*Txn).Abort props C04,C05,C06
+//@   requires txnOK(txn)
+//@   modifies txn.rootTxn, held[&txn.fox.mu], lockOps[&txn.fox.mu]
+//@   ensures settled: txn.write ==> txn.rootTxn == nil
+//@   ensures nothing-published: pubCount[&txn.fox.tree] == old(pubCount[&txn.fox.tree]) && published[&txn.fox.tree] == old(published[&txn.fox.tree])
+//@   ensures unlocked: old(txn.write && txn.rootTxn != nil) ==> !held[&txn.fox.mu]
+//@   ensures noop: !old(txn.write && txn.rootTxn != nil) ==> held[&txn.fox.mu] == old(held[&txn.fox.mu]) && lockOps[&txn.fox.mu] == old(lockOps[&txn.fox.mu]) && txn.rootTxn == old(txn.rootTxn)
+
+//@ func (*Router).Txn props C04,C06
+//@   requires fox != nil && published[&fox.tree] != nil
+//@   requires write ==> !held[&fox.mu]
+//@   modifies held[&fox.mu], lockOps[&fox.mu]
+//@   ensures result != nil && fresh(result) && result.fox == fox && result.write == write && result.rootTxn != nil
+//@   ensures locked: write ==> held[&fox.mu]
+//@   ensures nolock: !write ==> held[&fox.mu] == old(held[&fox.mu]) && lockOps[&fox.mu] == old(lockOps[&fox.mu])
